@@ -619,7 +619,7 @@ class Unit:
             pinned_text = orig_text
             for piece_ in getattr(e, 'hash_strip', None) or []:
                 # a part of the function that IS verified (copied into a helper on this run): only the frame around it is pinned
-                pinned_text = pinned_text.replace(piece_, ' @@VERIFIED_PIECE@@ ')
+                pinned_text = piece_.sub(' @@VERIFIED_PIECE@@ ', pinned_text) if hasattr(piece_, 'sub') else pinned_text.replace(piece_, ' @@VERIFIED_PIECE@@ ')
             hv = hashlib.sha1(normalise_code(pinned_text).encode()).hexdigest()[:16]
             key = '%s::%s' % (self.name, e.qualname)
             self.trusted_seen = getattr(self, 'trusted_seen', {})
